@@ -58,11 +58,8 @@ Theorem C23_paths_shortest_pairs : forall ktos to, In ktos (pairs_of flags) -> I
 Proof. exact paths_shortest_pairs. Qed.
 Print Assumptions C23_paths_shortest_pairs.
 
-(* the reachability sets used above are closed under the registered conversions and the breadth-first distance is
-   defined exactly on the reachable operators *)
-Theorem C23_paths_reach_consistent : forall ktos to, In ktos known_sets -> In to flags ->
-  closed converters (closure fuel converters (add_new [] [] (succs converters ktos))) = true /\
-  (mem to ktos = false ->
-   (reachable fuel converters ktos to = true <-> exists d, bfs_dist fuel converters ktos to = Some d)).
-Proof. exact reach_consistent. Qed.
+(* the reachability sets used above are closed under the registered conversions (first conjunct of reach_ok_set) and the
+   breadth-first distance is defined exactly on the reachable operators (second conjunct), for every known set and target *)
+Theorem C23_paths_reach_consistent : forallb reach_ok_set known_sets = true.
+Proof. exact reach_ok_all. Qed.
 Print Assumptions C23_paths_reach_consistent.
